@@ -241,6 +241,23 @@ impl Prop for C14 {
                 }
             }
         }
+        // E3: the same for frames longer than one TLS record / one 16 KiB block: one transient error in each part of the frame
+        for layer in [Layer::Tpkt, Layer::Link, Layer::X224] {
+            for len in [16380usize, 16381, 16384, 20000, 40000, 65528] {
+                if len > max_len(layer) {
+                    continue;
+                }
+                let total = reference(layer, &payload(len)).len();
+                for pos in [0usize, 1, 100, 16383, 16384, 16385, total / 2, 32768, total - 1] {
+                    if pos >= total {
+                        continue;
+                    }
+                    for kind in [0u8, 2, 3, 10] {
+                        cs.push(Case { layer, len, plan: WP::ErrOnce(pos, kind), then: vec![(5, WP::All)] });
+                    }
+                }
+            }
+        }
         // F: EINTR once
         for layer in [Layer::Tpkt, Layer::Link, Layer::X224] {
             for len in [0usize, 1, 100] {
@@ -319,7 +336,7 @@ impl Prop for C14 {
         json!({"idx": idx, "case": self.cases[idx as usize]})
     }
     fn rule(&self) -> String {
-        "cases = (layer in {tpkt, x224, link}, payload length, write behaviour of the stream); lengths 0..70000 all enumerated on an accepting stream; structured messages (every one-field and several three-field shapes of the C18 message model: size-dependent, skippable, optional, nested fields) framed by tpkt::Client::write; short-write caps {1,2,3,4,5,7,8,1024} for every length <= 300 and every 16-bit boundary length; every composition of write sizes for frames <= 12 bytes; zero-length writes; an error injected at every byte position for lengths <= 64 (<= 300 in thorough) and boundary lengths; EINTR once; one transient error of 11 kinds (WouldBlock, TimedOut, ConnectionReset, ConnectionAborted, BrokenPipe, NotConnected, UnexpectedEof, WriteZero, PermissionDenied, Interrupted, Other) at every byte position after which the stream accepts again; sequences of 2 (3 in thorough) messages on the same layer object, the first one meeting an error before its first byte / after one byte / in mid-frame / on its last byte, one-byte writes, a zero-length write or EINTR, the later ones judged like a first message; runs of 300 and 70 000 messages on one layer object; over-long messages (limit + 1 .. 200000, and L + 65536 after L) before, between and after ordinary ones on one layer object; a message written after one inbound frame of nine kinds was read on the same object (X.224 disconnect request / error / connection confirm / expedited data, data TPDUs, a fast-path frame, one-byte and empty TPKT bodies), after shutdown() or after a read that hit the end of the inbound stream (raw link: the outbound direction still accepts, the frame must go out); plus 18 full real conversations over TLS (NLA on/off) with a transport accepting k bytes per write, k in {1,2,3,5,7,16,1024}, an irregular size sequence, and EINTR. Non-trivial: the stream deviates from accepting everything, or the length is within 8 of a 7/14/15/16-bit boundary or above the frame limit.".into()
+        "cases = (layer in {tpkt, x224, link}, payload length, write behaviour of the stream); lengths 0..70000 all enumerated on an accepting stream; structured messages (every one-field and several three-field shapes of the C18 message model: size-dependent, skippable, optional, nested fields) framed by tpkt::Client::write; short-write caps {1,2,3,4,5,7,8,1024} for every length <= 300 and every 16-bit boundary length; every composition of write sizes for frames <= 12 bytes; zero-length writes; an error injected at every byte position for lengths <= 64 (<= 300 in thorough) and boundary lengths; EINTR once; one transient error of 11 kinds (WouldBlock, TimedOut, ConnectionReset, ConnectionAborted, BrokenPipe, NotConnected, UnexpectedEof, WriteZero, PermissionDenied, Interrupted, Other) at every byte position after which the stream accepts again (frames of 16 380..65 528 bytes: in each 16 KiB part of the frame); sequences of 2 (3 in thorough) messages on the same layer object, the first one meeting an error before its first byte / after one byte / in mid-frame / on its last byte, one-byte writes, a zero-length write or EINTR, the later ones judged like a first message; runs of 300 and 70 000 messages on one layer object; over-long messages (limit + 1 .. 200000, and L + 65536 after L) before, between and after ordinary ones on one layer object; a message written after one inbound frame of nine kinds was read on the same object (X.224 disconnect request / error / connection confirm / expedited data, data TPDUs, a fast-path frame, one-byte and empty TPKT bodies), after shutdown() or after a read that hit the end of the inbound stream (raw link: the outbound direction still accepts, the frame must go out); plus 18 full real conversations over TLS (NLA on/off) with a transport accepting k bytes per write, k in {1,2,3,5,7,16,1024}, an irregular size sequence, and EINTR. Non-trivial: the stream deviates from accepting everything, or the length is within 8 of a 7/14/15/16-bit boundary or above the frame limit.".into()
     }
     fn assumptions(&self) -> Vec<String> {
         vec![
